@@ -182,22 +182,22 @@ class TChild:
     def satisfiable(self, extra_constraints=(), exact=None):
         return self.check_satisfiability(extra_constraints) == "SAT"
 
-    def _q(self, name, args, extra):
+    def _q(self, name, args, extra, **params):
         tok = ("answer", name, self.uid, len(self.log))
-        self.log.append((name, args, tuple(extra), tok))
+        self.log.append((name, args, tuple(extra), tok, params))
         return tok
 
     def eval(self, e, n, extra_constraints=(), exact=None):
-        return self._q("eval", (e,), extra_constraints)
+        return self._q("eval", (e,), extra_constraints, n=n)
 
     def batch_eval(self, es, n, extra_constraints=(), exact=None):
-        return self._q("batch_eval", tuple(es), extra_constraints)
+        return self._q("batch_eval", tuple(es), extra_constraints, n=n)
 
     def max(self, e, extra_constraints=(), signed=False, exact=None):
-        return self._q("max", (e,), extra_constraints)
+        return self._q("max", (e,), extra_constraints, signed=signed)
 
     def min(self, e, extra_constraints=(), signed=False, exact=None):
-        return self._q("min", (e,), extra_constraints)
+        return self._q("min", (e,), extra_constraints, signed=signed)
 
     def solution(self, e, v, extra_constraints=(), exact=None):
         return self._q("solution", (e, v), extra_constraints)
@@ -420,12 +420,17 @@ def ob_composite(method, tier="quick", part=None):
                 G = conj(cf.ghostG)
                 GX = G & conj(list(x))
                 try:
+                    # the caller's other parameters (how many values, which signedness) must reach the child unchanged
+                    params = {}
                     if method == "eval":
-                        r = cf.eval(e, 2, extra_constraints=x)
+                        params = {"n": 1 + c.choose([True] * 3, "n")}
+                        r = cf.eval(e, params["n"], extra_constraints=x)
                     elif method == "batch_eval":
-                        r = cf.batch_eval([e], 2, extra_constraints=x)
+                        params = {"n": 1 + c.choose([True] * 3, "n")}
+                        r = cf.batch_eval([e], params["n"], extra_constraints=x)
                     elif method in ("max", "min"):
-                        r = getattr(cf, method)(e, extra_constraints=x)
+                        params = {"signed": c.choose([True, True], "signed") == 1}
+                        r = getattr(cf, method)(e, extra_constraints=x, signed=params["signed"])
                     elif method == "solution":
                         # the value asked about may itself be symbolic, over variables constrained in ANOTHER child than e's
                         v = TE(VARSETS[c.choose([True] * len(VARSETS), "value-variables")], name="v")
@@ -441,6 +446,7 @@ def ob_composite(method, tier="quick", part=None):
                 if len(asked) == 1:
                     k, l = asked[0]
                     c.check(label + "/same-question", (l[1][0] is e) and tuple(l[2]) == x, "the child was asked about another expression or other extra constraints")
+                    c.check(label + "/same-parameters", len(l) < 5 or l[4] == params, f"the child was asked with {l[4] if len(l) > 4 else None}, the caller asked with {params}")
                     K = conj(k.constraints) & conj(list(x))
                     if method in ("is_true", "is_false"):
                         c.check(label + "/child-view-implied", (G & ~conj(k.constraints)) == 0, "the child that was asked holds a constraint that the solver's constraints do not imply")
